@@ -13,6 +13,7 @@ import warnings
 
 sys.path.insert(0, os.path.dirname(os.path.abspath(__file__)))
 import anyio  # noqa: E402
+from guard import guarded_run  # noqa: E402
 import impl_res  # noqa: E402
 from asphalt.core import inject, resource  # noqa: E402
 from impl_res import CLASSES, Env, err_name, val_json  # noqa: E402
@@ -317,7 +318,7 @@ def main():
     res = []
     for case in payload["cases"]:
         try:
-            res.append(anyio.run(run_case, case, backend=case["backend"]))
+            res.append(guarded_run(run_case, case, backend=case["backend"]))
         except BaseException:  # noqa
             import traceback
             res.append({"backend": case["backend"], "seed": case.get("seed"), "steps": [],
